@@ -14,6 +14,7 @@ import (
 	"path/filepath"
 	"runtime"
 	"sort"
+	"strconv"
 	"strings"
 	"sync"
 	"testing"
@@ -47,9 +48,11 @@ type Event = map[string]any
 
 type Gate struct {
 	mu       sync.Mutex
-	n        int  // eligible calls seen in this run
-	failAt   int  // fail eligible call #failAt (0 = none)
-	cancelAt int  // the caller gives up right before eligible call #cancelAt: its context is cancelled, that call is not made
+	n        int // eligible calls seen in this run
+	failAt   int // fail eligible call #failAt (0 = none)
+	cancelAt int // the caller gives up right before eligible call #cancelAt: its context is cancelled from that call on
+	hangAt   int // eligible call #hangAt hangs for longer than the global timeout before it is made
+	HangFor  time.Duration
 	CancelOp func()
 	crashAt  int  // crash before eligible call #crashAt (0 = none)
 	dead     bool // instance crashed: every later call blocks for ever without effect
@@ -102,7 +105,14 @@ func (g *Gate) Reset(failAt, crashAt int) {
 	g.mu.Lock()
 	defer g.mu.Unlock()
 	g.n, g.failAt, g.crashAt, g.dead, g.events = 0, failAt, crashAt, false, nil
-	g.cancelAt = 0
+	g.cancelAt, g.hangAt = 0, 0
+}
+
+// HangAt: eligible call #k is slow: it starts only after `HangFor` (longer than the operation's deadline).
+func (g *Gate) HangAt(k int) {
+	g.mu.Lock()
+	defer g.mu.Unlock()
+	g.hangAt = k
 }
 
 // CancelAt: the operation's caller gives up (its context is cancelled) right before eligible call #k.
@@ -219,6 +229,20 @@ func (g *Gate) Do(ctx context.Context, target, method string, args Event, blocki
 		g.emitLocked(ev)
 		g.mu.Unlock()
 		return fmt.Errorf("%s.%s: %w", target, method, ErrInjected)
+	}
+	if g.hangAt != 0 && k == g.hangAt {
+		// a slow step: the other goroutines of the operation go on meanwhile; the call is then made under whatever is
+		// left of its context (a deadline that has passed makes it fail by itself)
+		ev["hung"] = true
+		g.inflight++ // Quiesce waits for it: the slow call may belong to a detached follow-up of the operation
+		g.mu.Unlock()
+		time.Sleep(g.HangFor)
+		g.mu.Lock()
+		g.inflight--
+		if g.dead {
+			g.mu.Unlock()
+			select {}
+		}
 	}
 	if g.cancelAt != 0 && k == g.cancelAt && g.CancelOp != nil {
 		// the caller gives up: from this call on the operation runs under a cancelled context (whoever honours it
@@ -365,6 +389,14 @@ type Env struct {
 	KVPoints bool
 }
 
+// globalTimeout: 20 s, or VERIF_GT_MS (the pass with slow steps uses a short one)
+func globalTimeout() time.Duration {
+	if ms, err := strconv.Atoi(os.Getenv("VERIF_GT_MS")); err == nil && ms > 0 {
+		return time.Duration(ms) * time.Millisecond
+	}
+	return 20 * time.Second
+}
+
 // ConfigHook lets a driver adjust the configuration before the Calcium is built.
 var ConfigHook func(*coretypes.Config)
 
@@ -383,7 +415,7 @@ var sharedRedis *miniredis.Miniredis
 func BaseConfig(dir string) coretypes.Config {
 	return coretypes.Config{
 		MaxConcurrency:    100000,
-		GlobalTimeout:     20 * time.Second,
+		GlobalTimeout:     globalTimeout(),
 		LockTimeout:       3 * time.Second,
 		ConnectionTimeout: 10 * time.Second, // engine cache liveness loop sleeps this long (0 would spin)
 		WALFile:           filepath.Join(dir, "core.wal"),
